@@ -22,6 +22,8 @@ EXPLANATION = (
     "count) partition BasicDeviceKind identically and completely. (5) Every "
     "failure exit of driver_load releases the library and the loader object. "
     "Regex semantics over all byte strings is library behaviour and not decided.")
+EXPLANATION += (' R-BOUNDED (array sizes, literal lengths), R-INDEX (constructor and name tables), name-input guard, cache-order clause of R-SELECT.')
+
 
 
 def select_semantics(prog, res):
